@@ -39,7 +39,7 @@ func init() { hx.Register("c14", func() hx.Property { return &c14{} }) }
 type c14 struct{}
 
 type c14Case struct {
-	Kind     string         `json:"kind"` // corpus | gen
+	Kind     string         `json:"kind"` // corpus | grid | gen
 	Op       string         `json:"op"`   // install install-dry template upgrade upgrade-dry lint
 	Skip     bool           `json:"skip"` // SkipSchemaValidation
 	SkipCRDs bool           `json:"skipCRDs"`
@@ -477,7 +477,37 @@ func (*c14) Corpus() []any {
 	return out
 }
 
-func (*c14) Exhaustive(string) []any { return nil }
+// Exhaustive: every keyword of the schema family against every kind of value, on a single chart
+// (the systematic part of the differential test of [valid] against the real library).
+func (*c14) Exhaustive(string) []any {
+	one, five := int64(1), int64(5)
+	schemas := []*vSchema{
+		{}, {Type: "object"}, {Type: "array"}, {Type: "string"}, {Type: "integer"}, {Type: "number"}, {Type: "boolean"}, {Type: "null"},
+		{Minimum: &one}, {Maximum: &five}, {Type: "integer", Minimum: &one, Maximum: &five}, {Minimum: &five, Maximum: &one},
+		{HasEnum: true, Enum: []any{1.0, "a", nil, true}}, {HasEnum: true, Enum: []any{}}, {HasEnum: true, Enum: []any{[]any{1.0}, map[string]any{"x": 1.0}}},
+		{Required: []string{"x"}}, {Type: "object", Required: []string{"x", "y"}},
+		{Props: map[string]*vSchema{"x": {Type: "integer"}}}, {Props: map[string]*vSchema{"x": {Type: "integer"}}, NoAddition: true},
+		{NoAddition: true}, {Items: &vSchema{Type: "integer"}}, {Type: "array", Items: &vSchema{Minimum: &one}},
+		{Props: map[string]*vSchema{"x": {Type: "object", Required: []string{"z"}, Props: map[string]*vSchema{"z": {Type: "boolean"}}}}},
+		{Invalid: true},
+	}
+	values := []any{nil, true, false, 0.0, 1.0, 5.0, 6.0, -3.0, "", "a", []any{}, []any{1.0}, []any{0.0, "a"}, []any{[]any{1.0}},
+		map[string]any{}, map[string]any{"x": 1.0}, map[string]any{"x": "s", "y": 2.0}, map[string]any{"y": nil},
+		map[string]any{"x": map[string]any{"z": true}}, map[string]any{"x": map[string]any{"z": 1.0}}, map[string]any{"x": map[string]any{}}}
+	var out []any
+	for _, sc := range schemas {
+		for _, v := range values {
+			top := &vSchema{Type: "object", Props: map[string]*vSchema{"k": sc}}
+			if sc.Invalid {
+				top = sc // uncompilable bytes exist for a whole document only
+			}
+			out = append(out, c14Case{Kind: "grid", Op: "template",
+				Chart: &vChart{Name: "top", Version: "1.0.0", Values: map[string]any{"k": v}, Schema: top},
+				Vals:  map[string]any{}})
+		}
+	}
+	return out
+}
 
 // ---------- generator
 
